@@ -541,6 +541,9 @@ func (ev *SpecEnv) valEq(a, b Val, e ast.Expr) *Term {
 		case IfaceV:
 			return ev.ex.isNilIface(x)
 		case SliceV:
+			if x.Region != nil && x.IsNil != nil {
+				return x.IsNil
+			}
 			return BoolC(x.Region == nil)
 		case MapV:
 			return BoolC(x.Cell == nil)
@@ -643,6 +646,40 @@ func (ev *SpecEnv) callExpr(x *ast.CallExpr) (Val, types.Type) {
 		sub.st = ev.heapState(true)
 		sub.old = nil
 		return sub.eval(x.Args[0])
+	case "called", "callarg", "callres":
+		// The calls this path made through contracts, by site "callee#k" (k-th call of that callee in the function's
+		// text; calls made by an inlined body carry that body's name as a prefix, as in the obligation names):
+		// called(site): the path made the call; callarg(site, i) / callres(site, i): its i-th argument / result
+		// (receiver first). On a path without the call the latter two are arbitrary: guard them with called().
+		if argc < 1 {
+			ev.fail("%s(site, ...)", name)
+		}
+		lit, ok := x.Args[0].(*ast.BasicLit)
+		if !ok || lit.Kind != token.STRING {
+			ev.fail("%s: the site must be a string literal", name)
+		}
+		site, _ := strconv.Unquote(lit.Value)
+		var rec *callRecord
+		if ev.st.Calls != nil {
+			rec = ev.st.Calls[site]
+		}
+		if name == "called" {
+			need(1)
+			return Scalar{BoolC(rec != nil)}, types.Typ[types.Bool]
+		}
+		need(2)
+		idx := ev.constArg(x.Args[1])
+		if rec == nil {
+			return Scalar{ev.ex.fresh("nocall", IntSort)}, nil
+		}
+		vals := rec.Rets
+		if name == "callarg" {
+			vals = rec.Args
+		}
+		if idx < 0 || idx >= len(vals) {
+			ev.fail("%s(%q, %d): the call has %d such values", name, site, idx, len(vals))
+		}
+		return vals[idx], nil
 	case "loopentry":
 		// loopentry(e) in a loop invariant: e evaluated in the memory of the moment the loop was entered (for data
 		// that did not exist at function entry, where old(e) cannot be used); local names keep their current values
